@@ -6,7 +6,7 @@ CONSTANTS MaxLen
 VARIABLE ts
 Tokens == {"dash", "colon", "qmark", "lbr", "rbr", "lbc", "rbc", "comma", "anchor", "alias", "tag", "strtag", "pipe", "gt",
            "dq", "sq", "hash", "pct", "docstart", "docend", "merge", "tilde", "tab", "cr", "lf", "sp", "bom", "two", "ff", "word",
-           "num", "bang", "star", "amp", "bslash"}
+           "num", "bang", "star", "amp", "bslash", "nulltag", "bintag", "inttag"}
 Init == ts = <<>>
 Next == Len(ts) < MaxLen /\ \E t \in Tokens : ts' = Append(ts, t)
 Spec == Init /\ [][Next]_ts
